@@ -1,9 +1,33 @@
 HOOK_COMMITS = []
+_T_S = "contract-based deductive verification of the real source in concrete-shape symbolic mode (VCs over all tensor contents per enumerated shape, z3/cvc5) + bounded run-time contracts against an independent spec"
+_T_B = "bounded run-time contracts on the real functions against an independent spec function (exhaustive within a stated bound); the deductive verifier does not reach these functions"
+_N = "Bounded clauses are never counted as proved. Trusted: Python/torch semantics as encoded by vf/pyvc (differentially tested), float-as-real, z3/cvc5, the spec functions' reading of the property."
 CHECKS = {
+ "C01": dict(category="other", technique=_T_S,
+   text="Real edit_distance/prefix_edit_distances source symbolically executed per shape (R,H<=2 quick, <=3 thorough): every pair's result proved equal to the weighted-Levenshtein spec at the first-eos lengths for ALL token/eos/cost/padding values; plus exhaustive run-time contracts (strings <=3/5 over small alphabets, ragged batches, independence, wrappers) against an exact-rational DP. Bounded in shapes, so level 'other'.",
+   note=_N),
+ "C02": dict(category="other", technique=_T_S,
+   text="Real error_rate/prefix_error_rates source symbolically executed per shape: result within [fewest, most] edits of minimum-cost alignments, equal-cost case = Levenshtein, normalisation/empty-reference convention, padding, for all contents; MER loss and modules by bounded run-time contracts.",
+   note=_N),
+ "C07": dict(category="other", engine="rtc", technique=_T_B,
+   text="Sequence log-probs (tensor and packed), random walks via a forced-choice sampler visiting every walk of the bounded tree, distribution wrapper support/sample/log_prob, greedy CTC: exhaustive within the stated bounds against a pure-Python oracle.",
+   note=_N + " Known finding KF-C07-2 (documented: eos ignored for packed input) is printed, not suppressed for other inputs."),
+ "C09": dict(category="other", engine="rtc", technique=_T_B,
+   text="pad_variable / chunk_by_slices / pad_masked_sequence / RandomShift against per-sequence pad-and-slice oracle (cross-checked with torch.nn.functional.pad), exhaustive over lens/pads/slices within the bound incl. pads beyond T, slices in the padding, empty/inverted slices.",
+   note=_N),
+ "C12": dict(category="other", technique="contract-based deductive verification: fragment contracts on the real _info_and_validate source and _utts_in_dir (VCs by z3/cvc5, integers and strings) + bounded run-time contracts on generated directories",
+   text="Proved for all inputs: reference-boundary check/repair (raises iff not well-formed / not documented-repairable, repaired row passes a strict pass, only documented field changes), alignment-length crop rule, utterance discovery by prefix/suffix. Directory-level clauses bounded.",
+   note=_N + " Fragment contracts assume the row/tensor abstractions stated in contracts/C12.py."),
  "C13": dict(category="proof", engine="pyvc+rtc",
    technique="contract-based deductive verification: VCs from the real sampler methods' AST, discharged by z3/cvc5 (symbolic N, W, rank, seed, epoch)",
    text="Every clause (init modes incl. raise-iff, len = number of yielded indices, rank-strided partition, order = f(seed, epoch) with frame conditions, history independence) is a postcondition or lemma over contracts on the real methods and is discharged for all N, world sizes, ranks, seeds and epochs. A bounded run-time cross-check of the same contracts on the real classes is kept as replay oracle.",
    note="Trusted: encoding of Python integer semantics; assumed contracts of torch.distributed rank/world queries, itertools.islice and numpy RandomState.permutation (the latter two differentially tested every run); z3/cvc5."),
+ "C15": dict(category="other", technique="contract-based deductive verification: real update_for_epoch / get_best_epoch symbolically executed against a history invariant (abstract epoch->record map as SMT arrays), loop invariant for the best-epoch scan; z3/cvc5",
+   text="Proved for all histories satisfying the invariant and all parameter settings: one-step early-stopping and lr-reduction transitions, stop decision, lr multiplied iff the criterion fires outside cool-down and the change is not negligible (written to every param group), frame, invariant preservation; get_best_epoch = earliest argmin of the formatted metric. Restart equivalence and typing bounded.",
+   note=_N + " cache_hist abstracted to SMT arrays; printing/rounding abstracted to a monotone function; single process."),
+ "C17": dict(category="other", technique="contract-based deductive verification: every os.listdir filter of command_line.py evaluated symbolically over strings (z3 seq + cvc5) + bounded run-time contracts on the real CLI entry points",
+   text="Proved for all file names/prefixes/suffixes: each of the six directory filters selects exactly startswith(prefix) and endswith(suffix) and derives the documented id. Conversions, error-rate totals, subsetting, statistics and worker-count invariance bounded.",
+   note=_N + " Worker-pool completion orders (schedules) are not decided by this technique."),
 }
 _PENDING = "check under construction in this session (design in DESIGN.md section 3); not yet claimed"
 NOT_APPLICABLE = {("C%02d" % i): _PENDING for i in range(1, 21) if ("C%02d" % i) not in CHECKS}
